@@ -146,13 +146,15 @@ class patched:
     def __init__(s, exact): s.exact = exact
     def __enter__(s):
         ac = env()['ac']
-        s.saved = {n: getattr(ac, n) for n in KERNEL_NAMES}
-        for n in KERNEL_NAMES:
+        # every numba dispatcher of the module (the listed kernels and any helper they were split into)
+        names = list(dict.fromkeys(KERNEL_NAMES + [n for n, v in vars(ac).items() if hasattr(v, 'py_func')]))
+        s.saved = {n: getattr(ac, n) for n in names if hasattr(ac, n)}
+        for n in s.saved:
             setattr(ac, n, getattr(s.saved[n], 'py_func', s.saved[n]))
         if s.exact: ac.np = Shim()
     def __exit__(s, *a):
         ac = env()['ac']
-        for n in KERNEL_NAMES: setattr(ac, n, s.saved[n])
+        for n in s.saved: setattr(ac, n, s.saved[n])
         ac.np = np
 
 # ------------------------------------------------------------------ environment
@@ -726,6 +728,27 @@ def state_changed(G, snap, cls, names, what):
                     f'cached per chemical tuple, so later evaluations see the damaged table')
     return None
 
+def fresh_model(cls, names):
+    """a model object that has not been evaluated yet (the per-class cache is bypassed and left as it was): one
+    evaluation of it is the state-free reference for any step of a history on the cached object"""
+    e = env()
+    klass = e['cls'][cls]
+    chems = tuple(e['chems'][n] for n in names)
+    old = klass._cached.pop(chems, None)
+    try:
+        with warnings.catch_warnings():
+            warnings.simplefilter('ignore')
+            G2 = klass(chems)
+    finally:
+        if old is not None: klass._cached[chems] = old
+        else: klass._cached.pop(chems, None)
+    return G2
+
+def expected_index(cls, names):
+    """positions of the members that carry group data FOR THIS MODEL CLASS (read from the chemicals, not from the object)"""
+    e = env()
+    return [i for i, n in enumerate(names) if getattr(e['chems'][n], cls)]
+
 def object_form_check(G, cls, names, xs, T):
     """obj.activity_coefficients (the object form on the members with groups) agrees with the functional form, can be
     repeated, and leaves the object as it was: evaluations before and after it give the same values"""
@@ -748,6 +771,24 @@ def object_form_check(G, cls, names, xs, T):
     if not close(g_after, g_before, 1e-12):
         return (f'history: {cls} model on {names}: after one activity_coefficients call obj(x, T) gives {g_after.tolist()} '
                 f'instead of {g_before.tolist()} (hidden per-object state)')
+    # the same with the object form evaluated at ANOTHER temperature in between, against an object never evaluated before
+    T2 = T + 32. if T < 400. else T - 32.
+    g_ref = np.asarray(fresh_model(cls, names)(np.array(xs, float), T), float)
+    g1 = np.asarray(G(np.array(xs, float), T), float)
+    ga_T2 = np.asarray(G.activity_coefficients(sub.copy(), T2), float)
+    g2 = np.asarray(G(np.array(xs, float), T), float)
+    gf2 = np.asarray(G.f(np.array(xs, float), T, *G.args), float)
+    ref_T2 = np.asarray(fresh_model(cls, names)(np.array(xs, float), T2), float)[idx]
+    if not close(g1, g_ref, 1e-12):
+        return (f'history: {cls} model on {names} at x={list(map(float, xs))}, T={T}: the cached object gives {g1.tolist()} but an object '
+                f'that was never evaluated gives {g_ref.tolist()} (hidden per-object state)')
+    if not close(g2, g1, 1e-12) or not close(gf2, g1, 1e-12):
+        return (f'history: {cls} model on {names} at x={list(map(float, xs))}: obj(x, {T}) = {g1.tolist()}, then '
+                f'obj.activity_coefficients(x_sub, {T2}), then obj(x, {T}) = {g2.tolist()} and obj.f(x, {T}, *obj.args) = {gf2.tolist()} '
+                f'(the value at T={T} depends on an evaluation at another temperature: hidden per-object state)')
+    if not close(ga_T2, ref_T2, 1e-9):
+        return (f'object-form: {cls} model on {names}: activity_coefficients(x_sub, {T2}) after a call at {T} gives {ga_T2.tolist()} '
+                f'but an object never evaluated gives {ref_T2.tolist()}')
     return None
 
 def native_dtype_check(G, cls, names, x, T):
@@ -807,7 +848,7 @@ def _oracle(case):
                 idx = [int(i) for i in G._index]
                 v = np.array(op[1], float); T = op[2]
                 full = np.zeros(len(case['chems'])); full[idx] = v
-                ref = np.asarray(G.f(full, T, *G.args), float)[idx]
+                ref = np.asarray(fresh_model(cls, case['chems'])(full, T), float)[idx]
                 ga = np.asarray(G.activity_coefficients(v.copy(), T), float)
                 results.append(ga)
                 msg = state_changed(G, snap, cls, case['chems'], f'step {k} (activity_coefficients)')
@@ -829,13 +870,13 @@ def _oracle(case):
                 g = G.f(arr, T, *G.args)
             results.append(g)
             g = np.array(g, float)
-            ref = np.broadcast_to(np.asarray(G.f(keep.copy(), T, *G.args), float), (len(keep),))
+            ref = np.broadcast_to(np.asarray(fresh_model(cls, case['chems'])(keep.copy(), T), float), (len(keep),))
             g = np.broadcast_to(g, (len(keep),))
             if not np.array_equal(arr, keep):
                 return f'x-modified: {cls} model on {case["chems"]}: step {k} changed the caller\'s array'
             if not close(g, ref, 1e-12):
                 return (f'history: {cls} model on {case["chems"]}: step {k} ({op[0]}) at T={T}, x={keep.tolist()} returns '
-                        f'{g.tolist()} but the state-free obj.f on a fresh array gives {ref.tolist()} (hidden per-object state '
+                        f'{g.tolist()} but a model object never evaluated before gives {ref.tolist()} (hidden per-object state '
                         f'or a returned array shared between calls)')
         msg = state_changed(G, snap, cls, case['chems'], 'the history of evaluations')
         if msg: return msg
@@ -875,6 +916,14 @@ def _oracle(case):
                 f'UnboundLocalError in the py_func; the compiled kernel reads the unbound gamma_sub (process crash)')
     if not np.array_equal(x, x0):
         return f'x-modified: {cls} model on {case["chems"]}: caller\'s x {x0.tolist()} became {x.tolist()}'
+    exp_idx = expected_index(cls, case['chems'])
+    for i in range(n):
+        if i not in exp_idx and g[i] != 1.:
+            return (f'no-group: {cls} model on {case["chems"]} at x={x0.tolist()}, T={T}: {case["chems"][i]} has no {cls} groups '
+                    f'but gamma = {g[i]!r}')
+    if ideal != (len(exp_idx) <= 1) or (not ideal and [int(i) for i in G._index] != exp_idx):
+        return (f'group-data: {cls} model on {case["chems"]}: the members with {cls} groups are at positions {exp_idx} but the object '
+                f'{"is the ideal fallback" if ideal else "uses index " + str([int(i) for i in G._index])}')
     if ideal:
         if not np.all(g == 1.):
             return (f'ideal-fallback: {cls} model on {case["chems"]} (at most one member with groups, so the ideal object) returns '
